@@ -97,10 +97,11 @@ def baseOk (us : List Url) (ns : List String) (r : Ref) (v : View) : Bool :=
 def catalogueSound (r : Ref) (cat : List UModel) : Bool :=
   cat.all (fun u => u.sources.all (fun s => (listed r s.url).any (·.name == s.native)))
 
-/-- `u` attributes the name `n` to endpoint `e` -/
+/-- `u` attributes the name `n` to endpoint `e` (names compare ignoring case: the unifier folds case) -/
 def attributes (u : UModel) (e : Url) (n : String) : Bool :=
   u.sources.any (fun s => s.url == e) &&
-    (u.id == n || u.aliases.contains n || u.sources.any (fun s => s.url == e && s.native == n))
+    (lowerS u.id == lowerS n || u.aliases.any (fun a => lowerS a == lowerS n) ||
+      u.sources.any (fun s => s.url == e && lowerS s.native == lowerS n))
 
 /-- Every listed model is in the catalogue, attributed to its endpoint: some entry has the endpoint as a
     source and carries the name as id, alias or that source's native name — or does so for another name the
@@ -120,14 +121,14 @@ def listersExact (us : List Url) (r : Ref) (n : String) : List Url :=
 def relClosure (seen : List Model) : Nat → List String → List String → List String × List String
   | 0, ns, ds => (ns, ds)
   | k + 1, ns, ds =>
-    let ds' := ds ++ dedup ((seen.filter (fun m => m.digest != "" && ns.contains m.name.toLower && !ds.contains m.digest)).map (·.digest))
-    let ns' := ns ++ dedup ((seen.filter (fun m => m.digest != "" && ds'.contains m.digest && !ns.contains m.name.toLower)).map (·.name.toLower))
+    let ds' := ds ++ dedup ((seen.filter (fun m => m.digest != "" && ns.contains (lowerS m.name) && !ds.contains m.digest)).map (·.digest))
+    let ns' := ns ++ dedup ((seen.filter (fun m => m.digest != "" && ds'.contains m.digest && !ns.contains (lowerS m.name))).map (fun m => lowerS m.name))
     relClosure seen k ns' ds'
 
 /-- endpoints that list a model which unification may identify with `n` -/
 def listersRelated (us : List Url) (r : Ref) (seen : List Model) (n : String) : List Url :=
-  let (ns, ds) := relClosure seen (seen.length + 1) [n.toLower] []
-  us.filter (fun e => (listed r e).any (fun m => ns.contains m.name.toLower || (m.digest != "" && ds.contains m.digest)))
+  let (ns, ds) := relClosure seen (seen.length + 1) [(lowerS n)] []
+  us.filter (fun e => (listed r e).any (fun m => ns.contains (lowerS m.name) || (m.digest != "" && ds.contains m.digest)))
 
 /-- the unified lookup of a name is bracketed by the exact and the related listers -/
 def unifiedLookupOk (us : List Url) (r : Ref) (seen : List Model) (n : String) (found : List Url) : Bool :=
@@ -146,22 +147,18 @@ def Op.models : Op → List Model
 def filterOk (cfg : Glob.Config) (name : Glob.Str) (answer : Bool) : Bool :=
   answer == Glob.pureMatches cfg name
 
-/-- What a VALID pattern means (documented glob semantics, case-insensitive): `*` everything, `*t*` contains,
-    `*t` ends with, `t*` starts with, no star: equal. Defined by taking the pattern apart, independently of
-    the branch structure of `MatchesGlob`. -/
+/-- What a VALID pattern means (documented glob semantics, case-insensitive): `*` everything, `*t*` contains
+    `t`, `*t` ends with `t`, `t*` starts with `t`, no star at either end: equal. Defined by looking at the first
+    and last character of the pattern, independently of the branch structure of `MatchesGlob`. -/
 def globMeaning (s pat : Glob.Str) : Bool :=
   let s := Glob.lower s
   let p := Glob.lower pat
-  match p with
-  | ['*'] => true
-  | '*' :: rest =>
-    (match rest.reverse with
-     | '*' :: mid => Glob.containsSub s mid.reverse      -- *t*
-     | _ => rest.isSuffixOf s)                           -- *t
-  | _ =>
-    (match p.reverse with
-     | '*' :: init => init.reverse.isPrefixOf s          -- t*
-     | _ => s == p)                                      -- t
+  if p == ['*'] then true
+  else match p.head? == some '*', p.getLast? == some '*' with
+    | true,  true  => Glob.containsSub s (p.drop 1).dropLast     -- *t*
+    | true,  false => (p.drop 1).isSuffixOf s                    -- *t
+    | false, true  => p.dropLast.isPrefixOf s                    -- t*
+    | false, false => s == p                                     -- t
 
 /-- "passes that endpoint's (valid) include/exclude filter" -/
 def passes (cfg : Option Glob.Config) (m : Model) : Bool :=
